@@ -91,9 +91,10 @@ def scratch_root(repo):
 
 
 class Lock:
-    def __init__(self):
+    def __init__(self, repo="/repo"):
         os.makedirs(os.path.join(VERIF, ".cache"), exist_ok=True)
-        self.f = open(os.path.join(VERIF, ".cache", "build.lock"), "w")
+        h = hashlib.sha1(os.path.abspath(repo).encode()).hexdigest()[:10]
+        self.f = open(os.path.join(VERIF, ".cache", f"build-{h}.lock"), "w")
 
     def __enter__(self):
         fcntl.flock(self.f, fcntl.LOCK_EX)
@@ -121,7 +122,7 @@ def ensure(configs, run_dir, repo, log):
     bins, notes = {}, {}
     configs = list(configs)
     default_repo = os.path.abspath(repo) == "/repo"
-    with Lock():
+    with Lock(repo):
         need_native = [c for c in configs if c in LEVELS]
         need_emu = [c for c in configs if c in EMU_CFG]
         need_x = [c for c in configs if c in X_CFG]
@@ -184,7 +185,7 @@ def ensure(configs, run_dir, repo, log):
                 empty = os.path.join(run_dir, "empty.cases")
                 open(empty, "wb").close()
                 argv = ["cargo", "+nightly", "miri", "run", "--release", "-q", "-p", "mvcore", "--bin", "mvexec", "--target", triple,
-                        "--", empty, os.path.join(run_dir, "empty.out")]
+                        "--", "cases", empty, os.path.join(run_dir, f"empty-{c}.out")]
                 rc, out = sh(argv, env, ws, log)
                 if rc != 0:
                     notes[c] = out
